@@ -732,8 +732,8 @@ def mpi_atan2(y, x, prec):
             a = mpf_atan2(yb, xb, prec, round_floor)
         else:
             a = mpf_atan2(ya, xb, prec, round_floor)
-    # Lower half-plane
-    elif mpf_le(yb, fzero):
+    # Lower half-plane (y = 0 with x < 0 is on the branch cut: covered below)
+    elif mpf_lt(yb, fzero):
         a = mpf_atan2(yb, xa, prec, round_floor)
         if mpf_le(xb, fzero):
             b = mpf_atan2(ya, xb, prec, round_ceiling)
